@@ -18,12 +18,15 @@ import AdbProofs.Lemmas.SyncExamples
     budget, flush failure (only possible when `fi.sendBuf ≠ []`), or the failure to SEND the OKAY
     acknowledging a delivered WRTE (`_read_until` calls `_okay` before it returns the data — the
     library's behaviour);
-  * `SR.PullPreempted` — for `pull` as a whole: additionally exceptions before the transfer and an
-    exception of `_clse` in the `finally` clause, which REPLACES the pending exception.
+  * `SR.PullPreempted` — for `pull` as a whole: exceptions before the transfer (guards, `_open`,
+    sending the RECV request) or below the parser during it.  An exception of `_clse` is NOT among
+    them: since the repair of the `finally`-masking defect (`pull` now closes the stream in an
+    `except BaseException` handler that swallows the close's own exception and re-raises) the close
+    still runs on every path but can no longer replace the transfer's exception
+    (`C10_pull_close_cannot_mask`, and the last example as a regression test).
   So, once nothing is pending in the send buffer and a complete FAIL record has been delivered,
-  `_filesync_read` never waits for more input before raising: no read timeout can take the place of
-  the failure at that level.  At the level of `pull` one can: the wait for the device's CLSE in the
-  `finally` clause (see `C10_pull_fail` and the last example).
+  neither `_filesync_read` nor `pull` waits for more input before the failure is the one reported:
+  no read timeout can take the place of the failure.
 -/
 namespace Adb
 open Adb.SR
@@ -213,10 +216,11 @@ theorem C10_list_fail_at_any_point (t : Txn) (fuel : Nat) (fi : FsInfo) (acc : L
 
 /-- `pull` as a whole (no callback, idle device), every outcome, when the WRTE payloads delivered
     during the call are DATA records followed by a FAIL record carrying `m`: the call raises
-    `AdbCommandFailureException(m)` — unless an exception pre-empted the transfer or `_clse`, run in
-    the `finally` clause, itself raised: that exception then REPLACES the device's failure (see
-    `PullPreempted`; this is the library's behaviour and the one way a timeout — of the wait for the
-    device's CLSE — can take the place of a failure the device already reported). -/
+    `AdbCommandFailureException(m)`, whatever the close handshake does afterwards (the device may
+    never send its CLSE, `_clse` may time out: the failure is still the one reported) — unless an
+    exception pre-empted the parser: a guard or `_open` raised, the RECV request could not be sent,
+    the acknowledgement of a delivered WRTE could not be sent, or the model's loop budget ran out
+    (`PullPreempted`). -/
 theorem C10_pull_fail (devPath : Bytes) (tt rt : Timeout) (w w' : World) (res : Except Err Val) (evs : List TEv)
     (chunks : List Bytes) (mid rest : Bytes) (f : List Nat) (m : Bytes)
     (h : devPull devPath .none tt rt w = (res, w')) (hev : w'.trace = evs ++ w.trace) (hl : w.locks = [])
@@ -224,6 +228,18 @@ theorem C10_pull_fail (devPath : Bytes) (tt rt : Timeout) (w w' : World) (res : 
     (hfail : parseRec .pull mid = some (⟨.FAIL, f, some m⟩, rest)) :
     res = .error (.adbCommandFailure m) ∨ ∃ e, res = .error e ∧ PullPreempted devPath tt rt w e w' :=
   devPull_fail h hev hl hrecs (parseRec_eq_some.1 hfail)
+
+/-- The close cannot mask the transfer's exception: in a `pull` that got past the guards and `_open`,
+    if `_pull` raised `e` then `pull` raises exactly `e` — and `_clse` still ran, with whatever
+    outcome `r2`. -/
+theorem C10_pull_close_cannot_mask (devPath : Bytes) (cb : CbMode) (tt rt : Timeout) (w w' w0 w1 w2 : World)
+    (res : Except Err Val) (t : Txn) (e : Err)
+    (h : devPull devPath cb tt rt w = (res, w'))
+    (h0 : runGuards (guardsFor "pull") (some devPath) w = (.ok (), w0))
+    (h1 : openStream (ascii "sync:") tt rt none { w0 with sink := some [] } = (.ok t, w1))
+    (hin : pullInner devPath cb t { fmt := .pull, maxdata := w1.maxdata } w1 = (.error e, w2)) :
+    res = .error e ∧ ∃ r2, clse t w2 = (r2, w') :=
+  devPull_close_cannot_mask h h0 h1 hin
 
 /-- Never as if it had succeeded: `_pull`'s loop, `list`'s loop and `stat` return normally only if
     every record consumed had an expected id — DATA…DONE, DENT…DONE, STAT respectively; in particular
@@ -307,13 +323,27 @@ example : errOf (fsRead [.DATA, .DONE] sxT { fmt := .pull, maxdata := 4096 } wAc
       = some (⟨.FAIL, [], some [110, 111]⟩, []) := by
   decide +kernel
 
-/-- Nor is the `_clse` case of `PullPreempted`: here the device reported FAIL "no" (fully delivered) and
-    then never sent its CLSE — `pull` raises the timeout of `_clse`'s wait (run in the `finally`
-    clause) INSTEAD of AdbCommandFailureException.  FINDING: at the level of `pull` the property
-    "never substitutes a timeout for a failure the device already reported" does not hold. -/
-example : errOf (devPull sxPath .none (some 10) (some 10) wPullFailNoClse).1 = some .transportTimeout ∧
+/-- Regression example for the repaired `finally`-masking defect: the device reported FAIL "no" (fully
+    delivered) and then never sent its CLSE, so `_clse`'s wait times out — `pull` nevertheless raises
+    AdbCommandFailureException "no" (before the repair this evaluated to the transport's timeout
+    error), and the CLSE was still sent last. -/
+example : errOf (devPull sxPath .none (some 10) (some 10) wPullFailNoClse).1 = some (.adbCommandFailure [110, 111]) ∧
     Push.deliveredWrteData (devPull sxPath .none (some 10) (some 10) wPullFailNoClse).2.trace
-      = Push.syncRec .DATA 3 [1, 2, 3] ++ Push.syncRec .FAIL 2 [110, 111] := by
+      = Push.syncRec .DATA 3 [1, 2, 3] ++ Push.syncRec .FAIL 2 [110, 111] ∧
+    (transmitted (devPull sxPath .none (some 10) (some 10) wPullFailNoClse).2.trace).getLast? = some ⟨.CLSE, 1, 7, []⟩ := by
   decide +kernel
+
+/-- the hypotheses of `C10_pull_close_cannot_mask` are satisfiable: in that world the guards pass, `_open`
+    returns the stream (1, 7) and `_pull` raises AdbCommandFailureException "no" -/
+example : ∃ w2 e,
+    runGuards (guardsFor "pull") (some sxPath) wPullFailNoClse = (.ok (), wNoClse0) ∧
+    openStream (ascii "sync:") (some 10) (some 10) none { wNoClse0 with sink := some [] } = (.ok sxT, wNoClse1) ∧
+    pullInner sxPath .none sxT { fmt := .pull, maxdata := wNoClse1.maxdata } wNoClse1 = (.error e, w2) := by
+  have h0 : (runGuards (guardsFor "pull") (some sxPath) wPullFailNoClse).1.toOption = some () := by decide +kernel
+  have h1 : (openStream (ascii "sync:") (some 10) (some 10) none { wNoClse0 with sink := some [] }).1.toOption
+      = some sxT := by decide +kernel
+  have h2 : errOf (pullInner sxPath .none sxT { fmt := .pull, maxdata := wNoClse1.maxdata } wNoClse1).1
+      = some (.adbCommandFailure [110, 111]) := by decide +kernel
+  exact ⟨_, _, run_ok_of h0, run_ok_of h1, run_error_of h2⟩
 
 end Adb
